@@ -8,7 +8,10 @@ git apply --check "$PATCH" || { echo "does not apply"; exit 9; }
 git apply "$PATCH"
 if [ $# -gt 0 ]; then
   J="$(mktemp /tmp/applyfix.XXXXXX.xml)"
-  env -u TWISTED_VERIF PYTHONPATH=/repo/src /venv/bin/python -m pytest -q -p no:cacheprovider --timeout=600 --junitxml="$J" "$@" 2>&1 | tail -n 2
+  # run from a scratch directory so that test debris does not land in /repo
+  T="$(mktemp -d /tmp/applyfix.cwd.XXXXXX)"; ABS=(); for t in "$@"; do ABS+=("/repo/$t"); done
+  (cd "$T" && env -u TWISTED_VERIF PYTHONPATH=/repo/src /venv/bin/python -m pytest -q -p no:cacheprovider --rootdir=/repo --timeout=600 --junitxml="$J" "${ABS[@]}" 2>&1 | tail -n 2)
+  rm -rf "$T"
   python3 - "$J" <<'PY'
 import json, sys, xml.etree.ElementTree as ET
 stable = set(json.load(open('/root/.vp/BASELINE.json'))['stable_pass'])
